@@ -321,6 +321,7 @@ pub fn run_c07(out: &mut Out, tier: &str, seed: u64) {
         }}; }
         pair!(out, rng, 16, 32); pair!(out, rng, 32, 16); pair!(out, rng, 64, 32); pair!(out, rng, 16, 64); pair!(out, rng, 32, 32); pair!(out, rng, 64, 64);
     }
+    crate::objapi::hashes(out, &mut rng);
 }
 
 /// all 2-way splits of every length 0..=l2 and all 3-way splits of every length 0..=l3
